@@ -68,6 +68,8 @@ func driveCursor(c *core.Ctx, r *core.Rand, k c14Kind, info map[string]any) {
 		}
 		cur := k.open()
 		ref := newRef(k.set, k.reverse)
+		var held [][]byte
+		var heldWant []string
 		check := func() bool {
 			c.Eval()
 			if cur.IsValid() != ref.valid() {
@@ -84,9 +86,19 @@ func driveCursor(c *core.Ctx, r *core.Rand, k c14Kind, info map[string]any) {
 					fail(what)
 					return false
 				}
+				// the value stays what it was while the cursor moves on (the library's own scanners keep it across Next)
+				held, heldWant = append(held, got), append(heldWant, ref.cur())
 			}
 			return true
 		}
+		defer func() {
+			for i, h := range held {
+				if string(h) != heldWant[i] {
+					fail(fmt.Sprintf("a value handed out by Current changed after the cursor moved on: was %q, now %q", heldWant[i], h))
+					return
+				}
+			}
+		}()
 		if !check() {
 			return
 		}
@@ -177,7 +189,7 @@ func init() {
 		Rule: "for subsets of an 8-element byte-string universe (\"\", a, a\\x00, aa, ab, b, b\\xff, \\xff; the empty string only where the storage admits it) every cursor kind the library hands out " +
 			"(raw / typed bolt cursors forward and reverse, TypedBucket.OpenCursor/OpenTypedCursor/OpenSeekableCursor/IterateStringList(InDirection), set index OpenValueCursor/OpenKeyCursor, GetRelatedEntitiesCursor, " +
 			"LinkCollection.IterateLinks, ref-counted IterateLinks, set-symbol runtime cursor with SeekToString, IterateIds/IterateValidIds with Seek, NewFilteredCursor, TreeSet.ToCursor, NewUnionSetCursor, IteratorMatchingAllOf/AnyOf, empty cursors) " +
-			"is driven through a full enumeration, every one of 20 seek targets (present, absent, before first, after last, shared prefixes) and random Next/Seek interleavings and compared step by step with a sorted-slice reference cursor; " +
+			"(a TreeSet also after it kept growing between cursors) is driven through a full enumeration, every one of 20 seek targets (present, absent, before first, after last, shared prefixes) and random Next/Seek interleavings and compared step by step with a sorted-slice reference cursor; every slice Current handed out is kept and must still hold its element when the run is over; " +
 			"thorough enumerates all 256 subsets (exhaustive over kind x subset x target), quick a seeded 48 incl. the empty and the full set. non-trivial = distinct (kind, subset, target) triples",
 		Assumptions: []string{"Next is not called on an exhausted cursor (unspecified); Seek on an exhausted cursor is", "dotted (stacked) set cursors enumerate a multiset in path order and are compared as multisets only"},
 		Exhaustive:  func(t core.Tier) bool { return t == core.Thorough },
@@ -195,7 +207,7 @@ func init() {
 				"TypedBucket.IterateStringList", "TypedBucket.IterateStringListInDirection/fwd", "TypedBucket.IterateStringListInDirection/rev",
 				"setIndex.OpenValueCursor/fwd", "setIndex.OpenValueCursor/rev", "setIndex.OpenKeyCursor/fwd", "setIndex.OpenKeyCursor/rev",
 				"GetRelatedEntitiesCursor/fwd", "GetRelatedEntitiesCursor/rev", "LinkCollection.IterateLinks", "RefCountedLinkCollection.IterateLinks/fwd", "RefCountedLinkCollection.IterateLinks/rev",
-				"setSymbolRuntime.OpenCursor", "setSymbolRuntime.OpenCursor (reopened on a row without the bucket)", "setSymbolRuntime.OpenCursor (reopened on another row)", "IterateIds", "IterateValidIds", "IterateIds(extended child store)", "IterateValidIds(extended child store)", "IterateIds(filtered)", "NewFilteredCursor", "TreeSet.ToCursor/fwd", "TreeSet.ToCursor/rev", "NewUnionSetCursor/fwd", "NewUnionSetCursor/rev",
+				"setSymbolRuntime.OpenCursor", "setSymbolRuntime.OpenCursor (reopened on a row without the bucket)", "setSymbolRuntime.OpenCursor (reopened on another row)", "IterateIds", "IterateValidIds", "IterateIds(extended child store)", "IterateValidIds(extended child store)", "IterateIds(filtered)", "NewFilteredCursor", "TreeSet.ToCursor/fwd", "TreeSet.ToCursor/rev", "TreeSet.ToCursor (grown after an earlier cursor)/fwd", "TreeSet.ToCursor (grown after an earlier cursor)/rev", "NewUnionSetCursor/fwd", "NewUnionSetCursor/rev",
 				"IteratorMatchingAnyOf/1", "IteratorMatchingAnyOf/2/fwd", "IteratorMatchingAnyOf/2/rev", "IteratorMatchingAllOf/1", "IteratorMatchingAllOf/2", "IteratorMatchingAllOf/3 order 0", "IteratorMatchingAllOf/3 order 3", "IteratorMatchingAllOf/3 order 5", "IteratorMatchingAllOf/3 order 7", "IteratorMatchingAnyOf/3", "IteratorMatchingAnyOf/2 provider reused", "TypedBucket.OpenCursor/fwd while a reverse cursor is open", "TypedBucket.IterateStringList while a reverse list cursor is open", "TypedBucket.OpenTypedCursor/rev while a forward cursor is open", "EmptyCursor", "stackedCursor(dotted set)"}}
 		},
 	})
@@ -341,6 +353,31 @@ func runC14(c *core.Ctx, idx int) {
 					if r.P(0.3) {
 						ts.Add([]byte(s))
 					}
+				}
+				return ts.ToCursor()
+			}})
+			// a set which keeps growing between cursors: every cursor enumerates the set as it is when it is opened
+			add(c14Kind{name: "TreeSet.ToCursor (grown after an earlier cursor)/" + dir, reverse: rev, set: set, open: func() ast.SetCursor {
+				ts := ast.NewTreeSet(!rev)
+				perm := r.Perm(len(set))
+				cut := 0
+				if len(perm) > 0 {
+					cut = r.Intn(len(perm) + 1)
+				}
+				for _, j := range perm[:cut] {
+					ts.Add([]byte(set[j]))
+				}
+				if ts.Size() > 0 || r.Bool() {
+					early := cursorOrEmpty(ts)
+					if ts.Size() == 0 && r.Bool() {
+						early = ts.ToCursor() // a cursor over the still empty set
+					}
+					for k := r.Intn(3); k > 0 && early.IsValid(); k-- {
+						early.Next()
+					}
+				}
+				for _, j := range perm[cut:] {
+					ts.Add([]byte(set[j]))
 				}
 				return ts.ToCursor()
 			}})
